@@ -182,11 +182,13 @@ class SObj(SV):
 class SDict(SV):
   """A dict with concrete string/int keys and symbolic values, plus an
   optional opaque remainder (`open_`)."""
-  __slots__ = ('items', 'open_')
+  __slots__ = ('items', 'open_', 'nonempty', 'memo')
 
-  def __init__(self, items=None, open_=False):
+  def __init__(self, items=None, open_=False, nonempty=None):
     self.items = dict(items or {})
     self.open_ = open_
+    self.memo = {}               # key -> z3 Bool: key is in the unknown remainder
+    self.nonempty = nonempty     # z3 Bool / bool: the unknown remainder is non-empty
 
 
 class Closure:
